@@ -16,8 +16,12 @@ PROP = dict(
                        "Comdex.C11.limit_withdraw_le_own_deposit", "Comdex.C11.limit_cancel_own_deposit",
                        "Comdex.C11.limit_payout_exact", "Comdex.C11.limit_cancel_exact",
                        "Comdex.C11.bidvalue_eq_sum_deposits", "Comdex.C11.bidvalue_in_custody",
-                       "Comdex.C11.market_total_covered", "Comdex.C11.limit_withdraw_le_own_deposit_counterexample"],
-    harness_tests=["TestC11"],
+                       "Comdex.C11.market_total_covered", "Comdex.C11.limit_withdraw_le_own_deposit_counterexample",
+                       "Comdex.C11.fill_bidvalue_eq_sum_deposits_partial", "Comdex.C11.fill_bidvalue_exact_counterexample",
+                       "Comdex.C11.fill_bidvalue_in_custody", "Comdex.C11.fill_deposits_covered",
+                       "Comdex.C11.fill_touches_only_the_bucket", "Comdex.C11.fill_withdraw_le_own_deposit",
+                       "Comdex.C11.fill_overcharge_counterexample"],
+    harness_tests=["TestC11", "TestC11Fill"],
     trusted_base=[KERNEL_TB, HARNESS_TB, DEC_TB,
                   "extract/effects (go/ast, no type checking): ordered bank calls of the English-auction and limit-bid entry points of x/auctionsV2 and the surplus / debt auction entry points of x/auction (10 functions) with path conditions, texts normalised; PINNED in "
                   "Props/C11Effects.lean against a reviewed literal (abstract party / denomination texts, positivity class, condition hashes) — "
@@ -30,12 +34,21 @@ PROP = dict(
                   "balance, every live auction record, every limit-bid record and every BidValue total",
                   "x/bank for plain and module accounts (no vesting, no blocklist) is represented by an association list with "
                   "send/mint/burn; tokenmint's burn/mint bookkeeping is outside the model (the harness gives it ample supply)",
+                  "Model/LimitFill.lean is hand-written from x/auctionsV2/keeper/auctions.go:535-605 (LimitOrderBid) and bid.go:496-683 on top of "
+                  "Model/DutchV2.lean; tied by TestC11Fill: positions seized by the real liquidationsV2 keeper, then generated deposits / "
+                  "withdrawals / cancels / market bids / reserve top-ups and REAL begin-blocks of x/auctionsV2 (several bidders at one "
+                  "premium, all three branches of the fill, fills that close the auction, cancel / withdraw right after a fill, emergency "
+                  "shutdown), comparing auction record, fifteen balances, fee and reserve records, every limit-bid record and BidValue "
+                  "after every line",
                   "protobuf (de)serialisation and the KV store are exercised, not modelled"],
     assumptions=["user messages are never signed by a module account (UsersOnly): the custody account has no key",
                  "the asset registry (asset id -> denomination) and the fee / bid-factor parameters are fixed over a history",
-                 "the automatic fill of limit bids by Dutch auctions is not part of this model (see notes/C11.md); the limit-bid "
-                 "theorems cover deposit / partial withdraw / cancel and their interleaving with English auctions in the same "
-                 "module account",
+                 "the automatic fill of limit bids by a Dutch auction is covered by the JOINT model Model/LimitFill.lean (one market, one "
+                 "Dutch auction of that pair, the shared module account; theorems fill_*; harness TestC11Fill through the real "
+                 "begin-blocker); Model/LimitBid.lean covers deposit / partial withdraw / cancel over several markets and their "
+                 "interleaving with English auctions in the same module account; two auctions of one pair filling from one book in the "
+                 "same block are not modelled",
+                 "bidders' address strings are distinct; their order (the store's iteration order inside one premium) is static data of a run",
                  "what MsgPlaceDebtBid.ValidateBasic demands of the bid amount (nothing / non-negative / positive) is read off the real "
                  "ValidateBasic by the harness and passed to the model (debtFloor); on the tree as found negative debt bids are "
                  "accepted and the monitor bid_monotone fires (see notes/C11.md)",
@@ -63,6 +76,9 @@ META = dict(
          "replaying generated message/block sequences on the real app and comparing outcome, balances and records after every step; the "
          "property's decidable forms are evaluated on the real states.",
     note="Trusted: Lean kernel (propext, Classical.choice, Quot.sound only), the hand-written models as far as the correspondence run "
-         "exercises them, Base/Dec as a model of LegacyDec. Not covered: limit-bid auto-fill by Dutch auctions (C10). "
+         "exercises them, Base/Dec as a model of LegacyDec. Limit bids auto-filled by a Dutch auction: joint model, for EVERY history "
+         "(several bidders at one premium, fills clipped by exhausted collateral, shutdown): BidValue = sum of records + deposits consumed "
+         "by exact fills (the code forgets to reduce BidValue there: finding D36), custody = initial + records + fees + named remainders "
+         "(over: D24, paid beyond target: D7) - skipped reserve draws (D23) - TriggerEsm payouts (D35). "
          "WithdrawLimitAuctionBid is modelled with the repaired guard (D5).",
 )
